@@ -6,6 +6,25 @@ import os
 
 V = os.path.dirname(os.path.dirname(os.path.abspath(__file__)))
 mx = json.load(open(os.path.join(V, "seeded", "matrix.json"))) if os.path.exists(os.path.join(V, "seeded", "matrix.json")) else {}
+# changes the checks do not report, and why (DESIGN.md 10.13 - 10.15)
+WHY_NOT = {
+    "C02-m16": "breaks only when two tasks use ONE api object at the same time; with real streams the pinned library does not support that (StreamReader refuses a second pending read)",
+    "C09-m15": "as C02-m16: needs two tasks reading on one connection",
+    "C10-m15": "as C02-m16: concurrent create_schedule calls on one api object",
+    "C18-m19": "as C02-m16: disconnect() waits for another task's request on the same object",
+    "C03-m16": "needs a login reply that takes more than 3 s of real time (no virtual loop clock in the harness)",
+    "C01-m18": "needs an acknowledgement that takes more than 3 s of real time",
+    "C02-m19": "wrong only through the NEW parameter `repeat=` it adds",
+    "C03-m20": "wrong only in the NEW operation `set_light()` it adds",
+    "C09-m19": "implements SwitcherType2Api.set_device_name (NotImplementedError on the pinned tree): a new operation",
+    "C11-m20": "wrong only through the NEW parameter `tz=` it adds",
+    "C12-m20": "wrong only for the NEW input type it adds (days given by name)",
+    "C14-m19": "wrong only in the NEW method SwitcherSchedule.update() it adds",
+    "C14-m20": "wrong only in the NEW method SwitcherSchedule.extend() it adds",
+    "C17-m20": "wrong only through the NEW parameter `local_addresses=` it adds",
+    "C19-m19": "wrong only for the NEW input type it adds (device type given as text)",
+    "C19-m20": "wrong only in the NEW classmethod from_dict() it adds",
+}
 rows = []
 for d in sorted(glob.glob(os.path.join(V, "seeded", "*", "meta.json"))):
     sid = os.path.basename(os.path.dirname(d))
@@ -19,7 +38,7 @@ for d in sorted(glob.glob(os.path.join(V, "seeded", "*", "meta.json"))):
     elif r.get("violation"):
         how = "VIOLATION … no-failing-input-found (" + "; ".join(b[:90] for b in r.get("broken", [])[:1]).replace("|", "/") + ")"
     else:
-        how = "**not reported** (exit %s)" % r.get("exit")
+        how = "**not reported** - " + WHY_NOT.get(sid, "(exit %s)" % r.get("exit"))
     others = sorted(p for p, x in mx.get(sid, {}).items() if x.get("violation") and p != tgt)
     summ = (m.get("summary") or "").replace("\n", " ").replace("|", "/")
     rows.append(f"| {sid} | {summ[:260]} | {how} | {' '.join(others) or '-'} |")
